@@ -376,3 +376,48 @@ def results_agree(name, kind, lib_res, mod_res):
     if same(lib_res, mod_res):
         return None
     return f"returned {lib_res!r}, built-in gives {mod_res!r}"
+
+
+# ---------------------------------------------------------------------------------------------------
+# entry points: what the public API of the classes offers vs. what the generators know (reported in every evidence file,
+# so that a newly added public method cannot silently stay outside the checks)
+
+_API_TO_OP = {"__call__": "call", "__contains__": "contains", "__delitem__": "delitem", "__eq__": "eq", "__ne__": "ne",
+              "__getitem__": "getitem", "__iter__": "iter", "__len__": "len", "__repr__": "repr", "__str__": "str",
+              "__setitem__": "setitem", "__lt__": "lt", "__le__": "le", "__gt__": "gt", "__ge__": "ge", "__iadd__": "iadd",
+              "__reversed__": "reversed", "__getattr__": "getattr", "__setattr__": "setitem", "__delattr__": "delitem"}
+# construction / configuration / context API: exercised by dedicated step kinds, not by op()
+_BY_STEP = {"__init__": "new_obj (constructor, data=)", "enable_multithreading": "threading", "disable_multithreading": "threading",
+            "buffered": "enter/exit obj", "buffer_backend": "enter/exit backend", "set_buffer_capacity": "setcap",
+            "get_buffer_capacity": "oracle", "get_current_buffer_size": "oracle", "backend_is_buffered": "oracle",
+            "filename": "rebind", "is_base_type": "(classification helper, C19 probes)", "registry": "-",
+            # read-only accessors of constructor arguments of the stub-store backends
+            "client": "-", "key": "-", "collection": "-", "uid": "-", "group": "-", "name": "-", "codec": "-"}
+_IGNORED = {"__init_subclass__", "__class_getitem__", "__subclasshook__", "__hash__", "__dir__", "__abstractmethods__"}
+
+
+def uncovered_entry_points(ns):
+    """Public callables/properties of every concrete collection class that no generator or step kind addresses."""
+    out = set()
+    ops = {"dict": set(DICT_MUT + DICT_READ) | {"getattr"}, "list": set(LIST_MUT + LIST_READ)}
+    seen = set()
+    for fam in getattr(ns, "families", {}).values():
+        for k, kind in (("d", "dict"), ("l", "list")):
+            cls = fam.get(k)
+            if cls is None or cls in seen:
+                continue
+            seen.add(cls)
+            for klass in cls.__mro__:
+                if klass is object or klass.__module__.startswith(("collections", "abc", "typing")):
+                    continue
+                for n, v in vars(klass).items():
+                    if not (callable(v) or isinstance(v, (classmethod, staticmethod, property))):
+                        continue
+                    if n in _IGNORED or n in _BY_STEP:
+                        continue
+                    if n.startswith("_") and not (n.startswith("__") and n.endswith("__")):
+                        continue
+                    op = _API_TO_OP.get(n, n)
+                    if op not in ops[kind]:
+                        out.add(f"{cls.__name__}.{n}")
+    return sorted(out)
